@@ -1,6 +1,7 @@
 /- Driver for the cluster model: N engine-model nodes, a lease holder, stream sessions run to
    quiescence at every cluster-level operation. -/
 import LiteFSVerif.Model.Cluster
+import LiteFSVerif.Model.Lease
 import LiteFSVerif.Driver.EngineD
 
 namespace LiteFSVerif.Driver.ClusterD
@@ -13,6 +14,9 @@ structure Node where
   cand : Bool := true
   ident : Nat := 0
   remoteId : Option Int := none      -- id of the remote halt lock this node believes to hold
+  cid : String := ""                 -- cluster id stored in the data directory
+  lease : Option Nat := none         -- id of the lease the node believes to hold
+  pctx : Option Bool := none         -- a primary-scoped context taken by the suite: still alive?
 
 structure Cl where
   nodes : Array Node := #[]
@@ -22,6 +26,11 @@ structure Cl where
   lag : Bool := false
   halt : Option (Nat × Int × Bool × Nat × UInt64) := none   -- (primary, id, short-lived, position at grant)
   ttlShort : Bool := false
+  leaseID : Nat := 0
+  svcCid : String := ""
+  renewErr : Bool := false
+  events : List String := []
+  gen : Nat := 0
   armed : Option Nat := none                    -- node whose next snapshot is suspended after its capture
   pending : Option (Nat × Nat × LTXFile) := none -- (primary, replica, captured snapshot) of a suspended stream
 
@@ -44,16 +53,49 @@ def replicate (p : Node) (r : Node) : Nat → Node × Bool
     if ok then ({ r with eng := e }, p.eng.posTxid = 0 || (e.hasDB && e.posTxid = p.eng.posTxid && e.posChk = p.eng.posChk))
     else replicate p { r with eng := recoverEng e } tries
 
+def Cl.svc (c : Cl) : Lease.Svc :=
+  { holder := c.holder, leaseID := c.leaseID, cid := c.svcCid, renewErr := c.renewErr, allow := c.allow, events := c.events }
+
+def Cl.withSvc (c : Cl) (s : Lease.Svc) : Cl :=
+  { c with holder := s.holder, leaseID := s.leaseID, svcCid := s.cid, events := s.events }
+
+def Node.lnode (n : Node) : Lease.LNode := { up := n.up, cand := n.cand, cid := n.cid, lease := n.lease }
+
+/-- a node stops acting as primary: contexts are cancelled, the databases recover -/
+def Node.stepDown (n : Node) : Node :=
+  { n with lease := none, eng := recoverEng { n.eng with primary := false },
+           pctx := n.pctx.map fun _ => false }
+
+/-- the lease side of settling: every node that acts as primary renews (and steps down if its
+    lease is gone or the service cannot be reached); then the allowed node takes a free lease -/
+def settleLease (c : Cl) : Cl :=
+  let c := (List.range c.nodes.size).foldl (fun (c : Cl) k =>
+    match c.nodes[k]? with
+    | some n =>
+      if n.up ∧ n.lease.isSome then
+        let (s, ln) := Lease.renew c.svc k n.lnode
+        if ln.lease.isNone then
+          let c := (c.withSvc s).setNode k n.stepDown
+          -- the replicas of a primary that stepped down lose their stream
+          { c with nodes := c.nodes.mapIdx fun i m => if i ≠ k ∧ m.up then { m with eng := recoverEng m.eng } else m }
+        else c
+      else c
+    | none => c) c
+  match c.holder, c.allow with
+  | none, some k =>
+    (match c.nodes[k]? with
+     | some n =>
+       if n.eng.exit ≠ 0 then c else
+       (match Lease.acquire c.svc k n.lnode s!"G{c.gen + 1}" with
+        | some (s, ln) =>
+          let c := if ln.cid == s!"G{c.gen + 1}" then { c with gen := c.gen + 1 } else c
+          (c.withSvc s).setNode k { n with lease := ln.lease, cid := ln.cid, eng := { recoverEng n.eng with primary := true } }
+        | none => c)
+     | none => c)
+  | _, _ => c
+
 def settle (c : Cl) : Cl :=
-  -- lease
-  let c := match c.holder, c.allow with
-    | none, some k =>
-      (match c.nodes[k]? with
-       | some n => if n.up ∧ n.cand ∧ n.eng.exit = 0 then
-           { c.setNode k { n with eng := { recoverEng n.eng with primary := true } } with holder := some k }
-         else c
-       | none => c)
-    | _, _ => c
+  let c := settleLease c
   -- replication
   match c.holder with
   | none => { c with lag := true }
@@ -66,8 +108,11 @@ def settle (c : Cl) : Cl :=
         | none => st
         | some r =>
           if i = pk ∨ !r.up ∨ !r.net ∨ r.eng.exit ≠ 0 then st else
-          let (r', ok) := replicate p r 3
-          (st.1.setIfInBounds i r', st.2 || !ok)) (c.nodes, false)
+          match Lease.attach c.svcCid r.cid p.cid with
+          | none => st        -- another cluster: the node does not attach
+          | some cid' =>
+            let (r', ok) := replicate p { r with cid := cid' } 3
+            (st.1.setIfInBounds i r', st.2 || !ok)) (c.nodes, false)
       { c with nodes := nodes, lag := lag }
 
 /-- with a suspended snapshot: the first connected replica whose session starts with a snapshot
@@ -170,15 +215,17 @@ def step (c : Cl) (line : String) : Cl × String :=
        match r with
        | none => (c, "err open")
        | some e =>
-         (settle ({ c with nextIdent := c.nextIdent + 1 }.setNode k { n with eng := e, up := true, net := true, ident := c.nextIdent }), "ok"))
+         (settle ({ c with nextIdent := c.nextIdent + 1 }.setNode k { n with eng := e, up := true, net := true, ident := c.nextIdent, lease := none, pctx := none, remoteId := none }), "ok"))
   | ["down", k] =>
     (match k.toNat? >>= fun k => c.nodes[k]?.map fun n => (k, n) with
      | none => (c, "bad-op")
      | some (k, n) =>
        if !n.up then (c, "bad-op") else
        -- Store.Close: the lease monitor leaves its role loop and recovers once more
-       let c := c.setNode k { n with up := false, eng := recoverEng { n.eng with primary := false } }
-       let c := if c.holder = some k then { c.recoverOthers k with holder := none } else c
+       let (sv, _) := Lease.release c.svc k n.lnode
+       let wasHolder := c.holder = some k
+       let c := (c.withSvc sv).setNode k { n with up := false, lease := none, pctx := none, eng := recoverEng { n.eng with primary := false } }
+       let c := if wasHolder then c.recoverOthers k else c
        (settle c, "ok"))
   | ["allow", k] =>
     (match k.toInt? with
@@ -197,8 +244,9 @@ def step (c : Cl) (line : String) : Cl × String :=
          | some (hp, _, true, _, _) => if hp = k then releaseHalt c else c
          | _ => c
        let n := (c.nodes[k]?).getD n
-       let c := c.setNode k { n with eng := recoverEng { n.eng with primary := false } }
-       (settle { c.recoverOthers k with holder := none }, "ok"))
+       let (sv, _) := Lease.release c.svc k n.lnode
+       let c := (c.withSvc sv).setNode k n.stepDown
+       (settle (c.recoverOthers k), "ok"))
   | ["net", k, v] =>
     (match k.toNat? >>= fun k => c.nodes[k]?.map fun n => (k, n) with
      | none => (c, "bad-op")
@@ -270,8 +318,9 @@ def step (c : Cl) (line : String) : Cl × String :=
      | none => (c, "bad-op")
      | some (k, n) =>
        if !n.up then (c, "bad-op") else
-       let c := c.setNode k { n with up := false, eng := { n.eng with primary := false } }
-       let c := if c.holder = some k then { c.recoverOthers k with holder := none } else c
+       let wasHolder := c.holder = some k
+       let c := c.setNode k { n with up := false, lease := none, pctx := none, eng := { n.eng with primary := false } }
+       let c := if wasHolder then { c.recoverOthers k with holder := none, events := c.events ++ ["expire"] } else c
        (settle c, "ok"))
   | ["snap-arm", k] =>
     (match k.toNat? >>= fun k => c.nodes[k]?.map fun n => (k, n) with
@@ -298,10 +347,64 @@ def step (c : Cl) (line : String) : Cl × String :=
     (c, if c.lag then "lag" else "ok")
   | ["pause"] => (c, "ok")
   | ["roles"] =>
-    (c, " ".intercalate ((List.range c.nodes.size).map fun i =>
+    let cls (x : String) : String := if x == "" then "none" else x
+    let per := (List.range c.nodes.size).map fun i =>
       match c.nodes[i]? with
-      | some n => s!"{i}={if !n.up then "down" else if c.holder = some i then "primary" else "replica"}"
-      | none => ""))
+      | some n =>
+        if !n.up then s!"{i}=down/-" else
+        let role :=
+          if n.lease.isSome then "primary"
+          else match c.holder with
+            | some p =>
+              (match c.nodes[p]? with
+               | some pn => if p ≠ i ∧ n.net ∧ n.eng.exit = 0 ∧ (Lease.attach c.svcCid n.cid pn.cid).isSome then "replica" else (if !n.net then "cut" else "idle")
+               | none => "idle")
+            | none => if !n.net then "cut" else "idle"
+        s!"{i}={role}/{cls n.cid}"
+      | none => ""
+    let h : String := match c.holder with | some k => toString k | none => "-1"
+    (c, " ".intercalate per ++ s!" svc={h}/{cls c.svcCid}")
+  | ["events"] =>
+    (match c.events with
+     | [] => (c, "-")
+     | ev => ({ c with events := [] }, ";".intercalate ev))
+  | ["renewerr", v] => (settle { c with renewErr := v == "on" }, "ok")
+  | ["expire"] => (settle { c with holder := none, events := c.events ++ ["expire"] }, "ok")
+  | ["quiet"] => (c, "ok")
+  | ["clusterid-svc", x] => ({ c with svcCid := if x == "-" then "" else x }, "ok")
+  | ["clusterid-node", k, x] =>
+    (match k.toNat? >>= fun k => c.nodes[k]?.map fun n => (k, n) with
+     | none => (c, "bad-op")
+     | some (k, n) => if n.up then (c, "bad-op") else (c.setNode k { n with cid := x }, "ok"))
+  | ["handoff", p, k] =>
+    (match p.toNat? >>= fun p => c.nodes[p]?.map fun n => (p, n), k.toNat? >>= fun k => c.nodes[k]?.map fun n => (k, n) with
+     | some (p, pn), some (k, kn) =>
+       if !pn.up || !kn.up then (c, "bad-op") else
+       let connected := p ≠ k && kn.net && kn.lease.isNone && kn.eng.exit == 0 && c.holder == some p &&
+         (Lease.attach c.svcCid kn.cid pn.cid).isSome
+       (match Lease.handoff c.svc p pn.lnode k kn.lnode connected with
+        | none => (c, "err")
+        | some (sv, _, _) =>
+          let l := pn.lease
+          let c := (c.withSvc sv).setNode p pn.stepDown
+          let c := c.recoverOthers p
+          let kn := (c.nodes[k]?).getD kn
+          let c := c.setNode k { kn with lease := l, eng := { recoverEng kn.eng with primary := true } }
+          (settle c, "ok"))
+     | _, _ => (c, "bad-op"))
+  | ["pctx-take", k] =>
+    (match k.toNat? >>= fun k => c.nodes[k]?.map fun n => (k, n) with
+     | none => (c, "bad-op")
+     | some (k, n) =>
+       if !n.up then (c, "bad-op") else
+       let alive := n.lease.isSome
+       (c.setNode k { n with pctx := some alive }, if alive then "alive" else "done"))
+  | ["pctx", k] =>
+    (match k.toNat? >>= fun k => c.nodes[k]?.map fun n => (k, n) with
+     | none => (c, "bad-op")
+     | some (_, n) =>
+       if !n.up then (c, "bad-op") else
+       (c, match n.pctx with | none => "none" | some true => "alive" | some false => "done"))
   | _ => (c, "bad-op")
 
 end LiteFSVerif.Driver.ClusterD
